@@ -385,6 +385,46 @@ def r12(ctx):
     import c13
     c13.r5(ctx)
 
+_SNAKE = lambda v: re.sub(r"(?<!^)(?=[A-Z])", "_", v).lower()
+_TYPE_FIELD = {"BinaryInput": "num_binary", "DoubleBitBinaryInput": "num_double_binary", "BinaryOutputStatus": "num_binary_output_status", "Counter": "num_counter",
+               "FrozenCounter": "num_frozen_counter", "AnalogInput": "num_analog", "AnalogOutputStatus": "num_analog_output_status", "OctetString": "num_octet_string"}
+
+
+def r13(ctx):
+    """The per-type / per-class event counters are tables keyed by event type and class: in every arm on an `Event` or `EventClass`
+    variant the counter touched is the namesake (`Event::BinaryOutputStatus` -> `num_binary_output_status`, `Class2` -> `num_class_2`),
+    and each `Insertable` impl touches only the counter of its own type. A cross-wired counter makes `insert` admit an event the
+    list has no room for (silently lost, no overflow flagged) or report a type full that is not."""
+    prog = ctx.prog
+    n = 0
+    for bd in prog.bodies.values():
+        if "event::buffer" not in bd.path or "::tests" in bd.path or "fmt::" in bd.path or "PartialEq" in bd.path:
+            continue
+        m = re.search(r"<dnp3::app::measurement::(\w+) as .*Insertable>::(\w+)$", bd.path)
+        if m:
+            want = _TYPE_FIELD.get(m.group(1))
+            for blk, p, rw in bd.places():
+                for pr in p.proj:
+                    if pr.startswith(".num_"):
+                        n += 1
+                        ctx.check(pr[1:] == want, "counter-namesake@%s::%s" % (m.group(1), m.group(2)), "%s touches %s" % (m.group(1), pr[1:]), bd.where(blk), bad_detail="<%s as Insertable>::%s touches the counter `%s`, expected `%s`" % (m.group(1), m.group(2), pr[1:], want))
+            continue
+        gi = ctx.gi(bd)
+        for blk, p, rw in bd.places():
+            fld = [pr[1:] for pr in p.proj if pr.startswith(".num_")]
+            if not fld:
+                continue
+            gs = [g for g in gi.dominating(blk) if g.kind == "is" and g.enum and re.search(r"(event::buffer::Event|database::config::EventClass|EventClass)$", g.enum)]
+            if not gs:
+                continue
+            g = gs[-1]
+            want = "num_" + (_SNAKE(g.name).replace("double_bit_binary", "double_binary") if not g.name.startswith("Class") else "class_" + g.name[5:])
+            n += 1
+            ctx.check(fld[0] == want, "counter-namesake@%s:%s" % (short(bd.path), g.name), "%s arm touches %s" % (g.name, fld[0]), bd.where(blk), bad_detail="in %s the arm for %s touches the counter `%s`, expected `%s`" % (short(bd.path), g.name, fld[0], want))
+    if n < 30:
+        raise AnchorError("counter namesake sites: %d" % n)
+
+
 RULES = [
     ("C03.R1", "T5", "records are removed only by clear_written/insert; clear_written only via the two confirm sites", r1),
     ("C03.R2", "T2", "release sites dominated by sequence-matched confirms", r2),
@@ -398,4 +438,5 @@ RULES = [
     ("C03.R10", "T8/T2", "event storage: list sized over all types; unlinking splices both neighbours, each under its own test", r10),
     ("C03.R11", "T2", "the selection is reset before a session's first await (a pre-empted session is dropped without clean-up)", r11),
     ("C03.R12", "T2+T4", "an overflow that displaces an event stays reported until no type is full (shared with C13.R5)", r12),
+    ("C03.R13", "T4-namesake", "per-type and per-class event counters are touched only under their namesake variant / type", r13),
 ]
